@@ -16,7 +16,7 @@
 From Coq Require Import List NArith.
 From Coq Require Import Permutation.
 From Jamm Require Import Bytes Codec Tree Spec Cursor SearchFacts CursorFacts SeekFacts CodecFacts.
-From Jamm Require Engine EngineAbs SpecPath EngineFacts EngineMergeFacts EngineModifyFacts EnginePathFacts EngineSpillFacts SpecPathFacts EngineRebalanceFacts EngineBridgeFacts EnginePins EngineTxInvFacts EngineSpillBucketFacts EngineRefines EngineOwnDefs EngineOwnSpill EngineAllocInv EngineDepth EngineNoPanic EngineSpillDepth EngineReadBridge.
+From Jamm Require Engine EngineAbs SpecPath EngineFacts EngineMergeFacts EngineModifyFacts EnginePathFacts EngineSpillFacts SpecPathFacts EngineRebalanceFacts EngineBridgeFacts EnginePins EngineTxInvFacts EngineSpillBucketFacts EngineRefines EngineOwnDefs EngineOwnSpill EngineAllocInv EngineDepth EngineNoPanic EngineSpillDepth EngineReadBridge EngineReadFull.
 From Jamm Require Consts CLayout.
 From Coq Require String.
 Import Coq.Strings.String.StringSyntax. Delimit Scope string_scope with string.
@@ -371,3 +371,19 @@ Theorem C01_put_then_get : forall (P : N) (txs : list (list Engine.op * list Byt
     EngineReadBridge.bucket_tree (Engine.d_disk st') r = Some t /\ Cursor.get t k = Some (Spec.IKv k v).
 Proof. exact EngineReadBridge.put_then_get_kv. Qed.
 Print Assumptions C01_put_then_get.
+
+(* the same with the FULL read-path invariant Tree.wf_tree (equal leaf depth included: uniform depth is an engine invariant) *)
+Theorem C01_committed_trees_fully_well_formed_and_read_back : forall (P : N) (txs : list (list Engine.op * list Bytes.bytes)) (st' : Engine.db),
+  (0 < P)%N -> EngineAllocInv.txs_ok' (Engine.init_db P) txs ->
+  EngineRefines.run_txs (Engine.init_db P) txs = Engine.Ok st' ->
+  forall path : list Bytes.bytes,
+  match Spec.get_at path (EngineRefines.sem_txs txs (Spec.SBucket 0 0 nil)) with
+  | Some (Spec.SBucket o x es) =>
+      exists (r : N) (t : Tree.tree),
+        EngineReadBridge.root_at (Engine.d_disk st') (Engine.d_root st') path = Some r /\
+        EngineReadBridge.bucket_tree (Engine.d_disk st') r = Some t /\
+        Tree.wf_tree t = true /\ EngineReadBridge.cursor_agrees t (Spec.SBucket o x es)
+  | _ => EngineReadBridge.root_at (Engine.d_disk st') (Engine.d_root st') path = None
+  end.
+Proof. exact EngineReadFull.history_read_full. Qed.
+Print Assumptions C01_committed_trees_fully_well_formed_and_read_back.
